@@ -44,10 +44,22 @@ struct StaticSubj {
         o.size_hint = std::min(size_hint, 70u);
         o.allow_threads = false;
         keys = gen_keys<K>(t, o, meta);
-        desc = name + " " + describe_keys(keys, meta);
+        // provenance of the object the readers share: as built (1/2), a copy-constructed object whose source is gone, a copy-assigned one
+        // (members that a copy leaves to be fixed up lazily would be written by the first readers)
+        const unsigned prov = (unsigned) t.below(4);
+        desc = name + (prov == 2 ? " (copy-constructed, source destroyed) " : prov == 3 ? " (copy-assigned over another index, source destroyed) " : " ") + describe_keys(keys, meta);
         if (!execute) return true;
         pool = gen_queries<K>(keys, meta, 4, false, false);
         obj.reset(new Index(keys.begin(), keys.end()));
+        if (prov == 2) {
+            std::unique_ptr<Index> cp(new Index(*obj));
+            obj = std::move(cp); // the source is destroyed here
+        } else if (prov == 3) {
+            std::vector<K> few(keys.begin(), keys.begin() + std::min<size_t>(keys.size(), 3));
+            std::unique_ptr<Index> dst(new Index(few.begin(), few.end()));
+            *dst = *obj;
+            obj = std::move(dst);
+        }
         return true;
     }
     size_t pool_size() const { return pool.size(); }
